@@ -25,7 +25,7 @@ BIGOM2 = 25.0      # lowering every omega2 transition state by 25 (rate x 7e10) 
 
 def BOUNDS(tier):
     return {'vacancy-mediated': VM_QUICK if tier == 'quick' else VM_THOROUGH, 'interstitial': inter.INTER_CRYSTALS, 'deltas': DELTAS,
-            'bases': ['T', 'G1', 'G2', 'G1+all omega2 lowered by 25 (large-omega2 algorithm)'], 'k': 1 if tier == 'thorough' else 0, 'tol': TOL}
+            'bases': ['T', 'G1', 'G2', 'G1+all omega2 lowered by 25 (large-omega2 algorithm)', 'G1+one omega2 class lowered by 25 (each class in turn)'], 'k': 1 if tier == 'thorough' else 0, 'tol': TOL}
 
 
 def cases(tier):
@@ -36,6 +36,9 @@ def cases(tier):
         devs = [()]
         if tier == 'thorough': devs += [((c, l),) for c in range(nco) for l in (0, 2)]
         nodes = [(b, d) for b in ('T', 'G1', 'G2', 'G1L') for d in devs]
+        # one exchange class alone in the large-omega2 regime (crystals with several exchange classes)
+        nT2 = len(vm.class_keys(ent)['T2'])
+        if nT2 >= 2: nodes += [('G1S%d' % k, ()) for k in range(nT2)]
         for c in range(0, len(nodes), CHUNK):
             out.append({'key': 'vm/{}/{}/N{}/chunk{}'.format(name, icut, N, c // CHUNK), 'kind': 'vm', 'crystal': name, 'icut': icut, 'N': N,
                         'nodes': [[b, [list(x) for x in d]] for b, d in nodes[c:c + CHUNK]], 'cost': N})
@@ -60,8 +63,12 @@ def eval_vm(case):
     viols, outcomes, ntr, nontriv = [], [], 0, 0
     for base, devs in case['nodes']:
         devs = [tuple(x) for x in devs]
-        d = vm.base_data(ent, 'G1' if base == 'G1L' else base)
+        d = vm.base_data(ent, 'G1' if base.startswith('G1') else base)
         if base == 'G1L': d['eneT2'] = d['eneT2'] - BIGOM2
+        if base.startswith('G1S'):
+            keys2 = vm.class_keys(ent)['T2']
+            n2 = sorted(range(len(keys2)), key=lambda n: keys2[n])[int(base[3:])]     # canonical (hash-seed independent) class order
+            d['eneT2'][n2] -= BIGOM2
         d = vm.apply_devs(ent, d, devs)
         nkey = 'vm/{}/cut{}/N{};vb={};multiwyckoff={};base={};dev={}'.format(case['crystal'], case['icut'], case['N'], int(vb), int(len(ent['sitelist']) > 1), base, vm.dev_name(ent, devs))
         L = vm.package_L(ent, d)
